@@ -49,7 +49,7 @@ Definition sys_pipe : MW (Z * Z * Z) :=
           | None => fail CPipe [] [] EMFILE ;> ret (-1, -1, -1)
           | Some b =>
               let t2 := <[b := {| f_obj := OPipeW id; f_cloexec := false; f_nonblock := false |}]> t1 in
-              put (w_with_next_pipe (id + 1) (set_pipe id {| p_buf := []; p_len := 0 |} w)) ;>
+              modify (fun w => w_with_next_pipe (id + 1) (set_pipe id {| p_buf := []; p_len := 0 |} w)) ;>
               set_cur_fds t2 ;>
               done CPipe [] [] 0 [a; b] ;> ret (0, a, b)
           end
@@ -639,10 +639,9 @@ Definition heap_alloc (c : callid) (args : list Z) (size : Z) : MW Z :=
   match f with
   | Some e => set_errno (Zpos e) ;> log c args [] 0 [] 0 ;> ret 0
   | None =>
-      let* w := get in
-      let id := w_next_blk w in
-      (if in_main w then put (w_with_heap (<[id := (true, size)]> (w_heap w)) (id + 1) w)
-       else put (w_with_heap (w_heap w) (id + 1) w)) ;>
+      let* id := gets w_next_blk in
+      modify (fun w => if in_main w then w_with_heap (<[id := (true, size)]> (w_heap w)) (id + 1) w
+                       else w_with_heap (w_heap w) (id + 1) w) ;>
       log c args [] id [] 0 ;> ret id
   end.
 Definition sys_malloc (n : Z) : MW Z := heap_alloc CMalloc [n] n.
@@ -659,7 +658,7 @@ Definition sys_free (id : Z) : MW unit :=
   let* w := get in
   if negb (in_main w) then log CFree [id] [] 0 [] 0 else
   if heap_live id w then
-    put (w_with_heap (<[id := (false, 0)]> (w_heap w)) (w_next_blk w) w) ;> log CFree [id] [] 0 [] 0
+    modify (fun w => w_with_heap (<[id := (false, 0)]> (w_heap w)) (w_next_blk w) w) ;> log CFree [id] [] 0 [] 0
   else log CFree [id] [] (-1) [] 0.
 
 Definition sys_realloc (id n : Z) : MW Z :=
@@ -669,12 +668,11 @@ Definition sys_realloc (id n : Z) : MW Z :=
   | None =>
       let* w := get in
       if negb (in_main w) then
-        put (w_with_heap (w_heap w) (w_next_blk w + 1) w) ;>
+        modify (fun w => w_with_heap (w_heap w) (w_next_blk w + 1) w) ;>
         log CRealloc [id; n] [] (w_next_blk w) [] 0 ;> ret (w_next_blk w)
       else if (id =? 0) || heap_live id w then
         let nid := w_next_blk w in
-        let h := if id =? 0 then w_heap w else <[id := (false, 0)]> (w_heap w) in
-        put (w_with_heap (<[nid := (true, n)]> h) (nid + 1) w) ;>
+        modify (fun w => w_with_heap (<[nid := (true, n)]> (if id =? 0 then w_heap w else <[id := (false, 0)]> (w_heap w))) (nid + 1) w) ;>
         log CRealloc [id; n] [] nid [] 0 ;> ret nid
       else log CRealloc [id; n] [] (-1) [] 0 ;> ret 0
   end.
